@@ -28,6 +28,9 @@
      devS  undoSuicide restores balance/code/storage ROOT only: storage written earlier in the block is lost
      devG  RevertToSnapshot demands contiguous change-log versions per (account, log type) although versions of
            undone logs are never handed out again: a frame that fails after one of its inner calls failed panics.
+     DevL  undoSuicide restores the code HASH only: the code of a contract created earlier in the same block (not yet
+           in the store) is gone when a frame is reverted across its SELFDESTRUCT - the failed frame is no no-op: the
+           account keeps a hash whose code cannot be loaded, every later call towards it is refused.
      DevC  a creation whose code deposit fails reports the failure but is not rolled back (negative control only).
      DevJ  the jump-destination analysis is cached under a key all init codes share: the analysis of the first init
            code that jumps answers for every later one under the same root (negative control only).
@@ -45,9 +48,11 @@ CONSTANTS Kinds, Vals, SendVals, SuicideTo, G0, MaxDepth, MaxFan, DepthLimit, De
           DevJ
 \* an: the code shapes of the universe (constant; the adapter reads them from the initial state) and - under DevJ only -
 \* the shape whose analysis sits in the cache slot the init codes share (-1: none yet)
+\* (a definition, FALSE in the design; the negative control overrides it in its cfg: DevL <- McTrue)
+DevL == FALSE
 VARIABLES w, stack, gs, fan, done, hist, an
 vars == <<w, stack, gs, fan, done, hist, an>>
-Init == /\ w = World0(DevS, DevG, InitBal, InitStor) /\ stack = <<>> /\ gs = <<>> /\ fan = <<>> /\ done = "" /\ hist = <<>>
+Init == /\ w = WithDevL(World0(DevS, DevG, InitBal, InitStor), DevL) /\ stack = <<>> /\ gs = <<>> /\ fan = <<>> /\ done = "" /\ hist = <<>>
         /\ an = [shape |-> ShapeAt, cache |-> -1]
 Top == stack[Len(stack)]
 Running == done = "" /\ ~w.crash
@@ -72,7 +77,7 @@ Enter(kind, to, val) ==
   \/ /\ Running /\ stack # <<>> /\ Len(stack) < MaxDepth /\ fan[Len(stack)] < MaxFan /\ gs[Len(stack)] >= 1
      /\ kind \in Kinds
      /\ IF kind = "create" THEN Creatable(Top.ctx, to) /\ ~Taken(to) /\ ~Top.ro   \* (inside a read-only frame: a write-protection failure)
-                           ELSE w.code[to]
+                           ELSE w.code[to] /\ ~w.lost[to]           \* (DevL: a call towards code that cannot be loaded is refused)
      /\ val \in (IF kind \in {"call", "callcode", "create"} THEN SendVals ELSE {0})
      /\ val <= w.bal[Top.ctx]                          \* enough balance (the denied call is not generated)
      /\ ~(Top.ro /\ kind = "call" /\ val > 0)          \* that is a write-protection failure of the caller
